@@ -15,6 +15,7 @@ USER_GROUPS = [
     ("overlapping", [["K", "E"], ["E", "G"]]),
     ("three-groups", [["P"], ["G", "A"], ["K", "E", "P", "G"]]),
     ("repeated-members", [["K", "E", "K"], ["g", "G"], ["P", "p", "P", "E"]]),
+    ("container-types", [{"k", "e"}, ("g", "P"), "kE", frozenset(["p"]), {"K": 1, "g": 2}.keys()]),
 ]
 
 
@@ -68,12 +69,13 @@ def check_case(case):
     whole = {"NCPR": o.get_NCPR(), "FCR": o.get_FCR(), "hydropathy": o.get_uversky_hydropathy()}
     whole["sigma"] = 0.0 if whole["FCR"] == 0 else whole["NCPR"] ** 2 / whole["FCR"]
     sig_prof = {}
-    wins = range(1, N + 4) if N <= 16 else sorted({1, 2, 4, 5, 6, 8, 9, 12, N // 2, N - 1, N, N + 1, N + 2})
+    wins = range(1, N + 4) if N <= 16 else sorted({1, 2, 4, 5, 6, 8, 9, 12, N // 2, 128, 129, 200, 256, 257, N - 1, N, N + 1, N + 2}
+                                                   if N > 200 else {1, 2, 4, 5, 6, 8, 9, 12, N // 2, N - 1, N, N + 1, N + 2})
     for w in wins:
         for name, g in getters:
             calls += 1
             try:
-                arr = g(w)
+                arr = g(np.int64(w)) if (w + len(name)) % 3 == 0 else g(w)      # window also as a numpy integer
             except Exception as e:  # noqa
                 if w <= N:
                     v("rejects-valid-window:" + name, "%s: get_linear_%s(%d) raised %r" % (seq, name, w, e), w=w, getter=name)
@@ -175,7 +177,8 @@ def run(tier, seed, t0):
     N = 5 if tier == "quick" else 7
     shards = spaces.word_shards(ALPHA, 1, N, 3)
     extra = [(L, pre) for L, pre in [(8, "KEGP"), (9, "PGEKK"), (12, "KKEEGGPPKE")]]
-    extra += [(44, ("KEGP" * 11)[:42]), (64, ("KKEGPGEEKP" * 7)[:63]), (131, ("KEGPPGEK" * 17)[:130])]
+    extra += [(44, ("KEGP" * 11)[:42]), (64, ("KKEGPGEEKP" * 7)[:63]), (131, ("KEGPPGEK" * 17)[:130]),
+              (300, ("EK" * 150)[:299]), (301, ("K" * 301)[:300]), (270, ("KKKE" * 70)[:269])]
     acc = core.pmap(shard, shards + extra)
     return core.finish(
         PROP, tier, seed, acc, t0,
